@@ -487,24 +487,26 @@ def make_TriangularMesh(obj, **kwargs) -> Union[Dict[str, Any], List[Dict[str, A
         subsets = obj.get_faces_subsets()
         col_seq = cycle(obj.style.mesh.disconnected.colorsequence)
         exponent = np.log10(len(subsets)).astype(int) + 1
-        for ind, (tri, dis_color) in enumerate(zip(subsets, col_seq)):
-            # temporary mutate faces from subset
-            obj._faces = tri
-            obj.style.magnetization.show = False
-            tr = make_TriangularMesh_single(obj, **{**kwargs, "color": dis_color})
-            # match first group with path scatter trace
-            lg_suff = "" if ind == 0 else f"- part_{ind+1:02d}"
-            tr["legendgroup"] = f"{kwargs.get('legendgroup', obj)}{lg_suff}"
-            tr["name_suffix"] = f" - part_{ind+1:0{exponent}d}"
-            traces.append(tr)
-            if style.orientation.show:
-                traces.append(
-                    make_triangle_orientations(
-                        obj,
-                        **{**kwargs, "legendgroup": tr["legendgroup"]},
+        try:
+            for ind, (tri, dis_color) in enumerate(zip(subsets, col_seq)):
+                # temporary mutate faces from subset
+                obj._faces = tri
+                obj.style.magnetization.show = False
+                tr = make_TriangularMesh_single(obj, **{**kwargs, "color": dis_color})
+                # match first group with path scatter trace
+                lg_suff = "" if ind == 0 else f"- part_{ind+1:02d}"
+                tr["legendgroup"] = f"{kwargs.get('legendgroup', obj)}{lg_suff}"
+                tr["name_suffix"] = f" - part_{ind+1:0{exponent}d}"
+                traces.append(tr)
+                if style.orientation.show:
+                    traces.append(
+                        make_triangle_orientations(
+                            obj,
+                            **{**kwargs, "legendgroup": tr["legendgroup"]},
+                        )
                     )
-                )
-        obj._faces = tria_orig
+        finally:
+            obj._faces = tria_orig
     else:
         traces = [make_TriangularMesh_single(obj, **kwargs)]
         if style.orientation.show:
